@@ -65,3 +65,19 @@ theorem rankInt_total : TotalPreorder rankInt where
       by_cases h5 : a < c <;> by_cases h6 : c < a <;> simp [h1, h2, h3, h4, h5, h6] <;> omega
 
 end CM
+
+namespace CM
+
+theorem TotalPreorder.comap {α β : Type} {rank : β → β → Rank} (h : TotalPreorder rank) (f : α → β) :
+    TotalPreorder (fun a b => rank (f a) (f b)) where
+  refl a := h.refl (f a)
+  mirror a b := h.mirror (f a) (f b)
+  trans a b c := h.trans (f a) (f b) (f c)
+
+theorem TotalPreorder.reverse {α : Type} {rank : α → α → Rank} (h : TotalPreorder rank) :
+    TotalPreorder (fun a b => rank b a) where
+  refl a := h.refl a
+  mirror a b := h.mirror b a
+  trans a b c h1 h2 := h.trans c b a h2 h1
+
+end CM
